@@ -651,15 +651,35 @@ pub fn mon_amp(_scn: &Scenario, r: &Record, out: &mut V) {
         let Some(first_rx) = first_rx else { continue };
         let validated = r.rx.iter().filter(|p| p.ep == SERVER && p.t >= first_rx && p.frames.iter().any(|f| matches!(f, F::PathResponse(_)))).map(|p| p.t).min().unwrap_or(u64::MAX);
         let mut sent: u64 = 0;
+        // `forgetful` mirrors an allowance that saturates at zero when the last datagram overshoots
+        // it (the overshoot is forgotten, so the next datagram received grants a fresh 3x): a strict
+        // violation that this accounting still permits is the KNOWN C11 finding (path/mod.rs
+        // on_bytes_transmitted, `Counter<u32, Saturating>`), reported under its own clause so that any
+        // other way of exceeding the limit keeps the plain clause.
+        let mut forgetful: u64 = 0;
+        let mut credited: usize = 0;
+        let mut rx_events: Vec<(u64, u64)> = r
+            .dgrams
+            .iter()
+            .filter(|c| c.from == CLIENT && c.src == addr)
+            .flat_map(|c| c.delivered_at.iter().map(move |t| (*t, c.delivered_len as u64)))
+            .collect();
+        rx_events.sort();
         for d in r.dgrams.iter().filter(|d| d.from == SERVER && d.dst == addr) {
             if d.t >= validated {
                 break;
             }
-            let received: u64 = r.dgrams.iter().filter(|c| c.from == CLIENT && c.src == addr).map(|c| c.delivered_at.iter().filter(|t| **t <= d.t).count() as u64 * c.delivered_len as u64).sum();
+            while credited < rx_events.len() && rx_events[credited].0 <= d.t {
+                forgetful += 3 * rx_events[credited].1;
+                credited += 1;
+            }
+            let received: u64 = rx_events[..credited].iter().map(|e| e.1).sum();
             if sent >= 3 * received {
-                v(out, "amp.new_path_limit", format!("server started datagram #{} ({} bytes) at {} us to the unvalidated new address {} after already sending {} bytes there with only {} bytes received from it", d.idx, d.payload.len(), d.t, addr, sent, received));
+                let clause = if forgetful > 0 { "amp.new_path_limit.overshoot_forgotten" } else { "amp.new_path_limit" };
+                v(out, clause, format!("server started datagram #{} ({} bytes) at {} us to the unvalidated new address {} after already sending {} bytes there with only {} bytes received from it", d.idx, d.payload.len(), d.t, addr, sent, received));
             }
             sent += d.payload.len() as u64;
+            forgetful = forgetful.saturating_sub(d.payload.len() as u64);
         }
     }
 }
